@@ -32,13 +32,14 @@ DIR_NAMES = [
     "trail ", "back\\slash", "at@home", "com,ma", "star*", "(paren)", "[sq]", "{cur}", "dollar$", "ex!cl", "pi|pe",
     "caret^", "gr`ave", "a\tb", "KKelvin", "İstanbul", "x y", "emoji\U0001F35D", "UPPER", "lower",
     "Tea2Go", "ABCdef", "a_b-c d", "é", "mdx", "readme", "index",
-    "preserves", "preserves", "conserves & jams", "serves you right", "Reserves", "it deserves",
+    " ", "\u3000", "  ", "preserves", "preserves", "conserves & jams", "serves you right", "Reserves", "it deserves",
 ]
 STEMS = [
     "spag bol", "lasagne", "tikka_masala", "Saag Aloo", "q?r", "a#b", "100%", "50%25", "it's", 'quo"te', "a&b",
     "日本", "Crème", "a+b", "x;y", "e=mc2", "tilde~", "dot.ted.name", "2", "UPPER", ":c", " sp", "sp ", "a\\b",
     "a@b", "c,d", "st*r", "(p)", "[s]", "ex!", "g`r", "K", "\U0001F35D", "roti", "naan", "dal", "x.html",
     "readme2", "index2", "serves3", "a%2Fb", "%41", "%zz", "plus+plus", "preserves", "deserves more", "conserves",
+    "x", "me", "e", "ex", "dex", "dme", "adme", "ndex", "eadme", "d",
 ]
 MD_EXTS = [".md", ".md", ".md", ".MD", ".Md", ".mD"]
 README_NAMES = ["README.md", "index.md", "readme.md", "Readme.MD", "INDEX.MD", "ReadMe.md", "Index.Md"]
@@ -52,7 +53,8 @@ TITLES = [
     "A", "B", "a", "Z", "É", "e", "100 ways", "Dal: the basics", "Roti (plain)", "Naan -- fast", "x > y", "Tea, two ways",
     "\U0001F35D pasta", "Äpfel", "apple", "Apple", "Zebra cake",
 ]
-PREPS = ["for", "serves", "serve", "to serve", "makes", "serving", "For", "SERVES", "to make", "to  serves"]
+PREPS = ["for", "serves", "serve", "to serve", "makes", "serving", "For", "SERVES", "to make", "to  serves",
+         "For", "MAKES", "Serves", "TO SERVE", "To Make", "Serving", "fOr", "Makes"]
 QUERIES = ["", "", "", "?x=1", "?a=1&b=2", "?q", "?"]
 FRAGS = ["", "", "", "#top", "#sec-1", "#a.b", "#"]
 EXTERNALS = ["http://example.com/", "https://example.com/a%20b?q=1#f", "mailto:chef@example.com", "//cdn.example.com/lib.js",
@@ -114,8 +116,9 @@ def find(node: Node, parts: Sequence[str]) -> Optional[Node]:
 
 def enc_component(rng: random.Random, c: str, style: str) -> str:
     """Percent-encode one path component. style: plain | over | lower | rawuni"""
-    if style == "rawuni":
-        out = "".join(ch if ord(ch) > 127 else quote(ch, safe="") for ch in c)
+    if style == "rawuni" and c == c.strip():
+        # (Unicode white space at the edges of a component must be written encoded: Markdown trims it)
+        out = "".join(ch if ord(ch) > 127 and not ch.isspace() else quote(ch, safe="") for ch in c)
     else:
         out = quote(c, safe="")
     if "%2B" in out and rng.random() < 0.7:
@@ -193,8 +196,13 @@ def md_link(rng: random.Random, url: str, image: bool = False) -> str:
             return f"![{text}]({url})"
         q = "'" if '"' in url else '"'
         return f"<img src={q}{url}{q} alt='i'>"
-    if r < 0.7:
+    if r < 0.62:
         return f"[{text}]({url})"
+    if r < 0.70 and "'" not in url and '"' not in url and "(" not in url and ")" not in url:
+        # raw HTML whose URL sits in another attribute (lxml.html.iterlinks: data, cite, background ..., style url())
+        return rng.choice([f'<object data="{url}">{text}</object>', f'<q cite="{url}">{text}</q>',
+                           f'<span style="background: url({url})">{text}</span>',
+                           f'<object data=" {url} "></object>'])
     if r < 0.8:
         return f"[{text}](<{url}>)" if "<" not in url and ">" not in url else f"[{text}]({url})"
     pad = rng.choice(["", " ", "  "])
@@ -252,6 +260,11 @@ def recipe_text(rng: random.Random, title: Optional[str], servings: Optional[int
                           f"bake(mix({a}, {b2}, {c3}), {c4})", "```", ""]
         else:
             lines += [f"    {q} {a}", f"    {rng.choice(['1 tsp', '50ml', '4'])} {b2}", f"    mix({a}, {b2})", ""]
+        if rng.random() < 0.3:
+            # ingredients WITHOUT a leading quantity whose description holds a scaled number
+            lines[-1:-1] = [f"    {rng.choice(['rosemary', 'bay', 'lime'])} {{{rng.choice(['4', '6', '3'])} {rng.choice(['sprigs', 'leaves', 'wedges'])}}}"]
+            if rng.random() < 0.5:
+                lines[-1:-1] = [f"    chop(garlic {{{rng.choice(['2', '8'])} cloves}})"]
     if rng.random() < 0.2:
         lines += ["## Notes", "", rng.choice(PROSE) + " {10}", ""]
     return "\n".join(lines)
@@ -332,6 +345,28 @@ def gen_skeleton(rng: random.Random, depth: int, max_depth: int, fan: int, budge
     return ch
 
 
+def force_names(rng: random.Random, src: Node, opt: str) -> None:
+    """opt "ws": some directory is named with white space only; "rm": recipe files whose names are substrings of
+    'readme.mdindex.md' (x.md, me.md, dex.md ...)."""
+    all_dirs = [src] + [n for _p, n in walk(src) if n["k"] == "d"]
+    if "ws" in opt:
+        parent = rng.choice(all_dirs)
+        subs = [c for c in parent["ch"] if c["k"] == "d"]
+        nm = rng.choice([" ", "\u3000", "  ", "\u3000 "])
+        if not any(c["name"] == nm for c in parent["ch"]):
+            if subs and rng.random() < 0.7:
+                rng.choice(subs)["name"] = nm
+            else:
+                parent["ch"].append({"k": "d", "name": nm, "ch": [{"k": "f", "name": "inside.md", "role": "recipe"},
+                                                                    {"k": "f", "name": "README.md", "role": "readme"}]})
+    if "rm" in opt:
+        for d in rng.sample(all_dirs, k=min(len(all_dirs), 2)):
+            for st in rng.sample(["x", "me", "e", "ex", "dex", "dme", "adme", "ndex", "d"], k=2):
+                nm = st + rng.choice([".md", ".md", ".MD"])
+                if not any(c["name"].lower() == nm.lower() for c in d["ch"]):
+                    d["ch"].append({"k": "f", "name": nm, "role": "recipe"})
+
+
 def _targets(src: Node) -> Dict[str, List[Tuple[Tuple[str, ...], Node]]]:
     t: Dict[str, List[Tuple[Tuple[str, ...], Node]]] = {"recipe": [], "readme": [], "asset": [], "dir": [((), src)],
                                                          "link": [], "decoy": []}
@@ -379,6 +414,7 @@ def gen_links(rng: random.Random, from_dir: Tuple[str, ...], tg: Dict[str, Any],
 
 
 def gen_site(rng: random.Random, profile: str = "valid", size: str = "medium") -> Dict[str, Any]:
+    size, _sep, opt = size.partition(":")
     M = rng.choice([1, 1, 2, 2, 3, 3, 4, 5, 6, 8, 10, 12])
     big_m = size == "bigM"
     if big_m:
@@ -393,6 +429,8 @@ def gen_site(rng: random.Random, profile: str = "valid", size: str = "medium") -
     if size == "medium" and M > 6:
         budget = [6, 5]
     src = D("src", gen_skeleton(rng, 0, max_depth, fan, budget))
+    if opt:
+        force_names(rng, src, opt)
     outside = D("outside", [F("secret.bin", data=b"\x00SECRET-MARKER-\xff" + bytes(rng.randrange(256) for _ in range(8))),
                             F("secret.md", text="# Outside secret for 2\n\nSECRET-MARKER-TEXT\n\n    1 secret\n"),
                             D("odir", [F("deep.txt", text="SECRET-MARKER-DEEP\n")])])
@@ -483,7 +521,7 @@ def gen_site(rng: random.Random, profile: str = "valid", size: str = "medium") -
 FAULTS = ["multiple-readme", "readme-missing-title", "readme-malformed-title", "recipe-missing-title", "compile",
           "max-servings", "link-outside-dots", "link-outside-abs-symlink", "link-outside-rel-symlink",
           "link-outside-dir-symlink", "link-missing", "link-outside-encoded",
-          "title-with-scaled-value", "link-sibling-rel", "link-sibling-abs", "link-sibling-encoded", "link-sibling-symlink", "link-sibling-dir-symlink"]
+          "title-with-scaled-value", "multiple-readme-same-name", "empty-recipe-block", "link-sibling-rel", "link-sibling-abs", "link-sibling-encoded", "link-sibling-symlink", "link-sibling-dir-symlink"]
 
 
 SIBLING_NAMES = ["src-private", "src2", "src.bak", "src copy", "srcé"]
@@ -522,6 +560,16 @@ def plant_fault(rng: random.Random, site: Dict[str, Any], profile: str, tg: Dict
         add_recipe(rng.choice(["No heading here\n", "## Only level two\n", "# 100% rye\n", "# A <b>b</b> for 2\n", "",
                                "# Pancakes {3} ways for 2\n\nText\n", "# Mix {2} and match\n\n    2 eggs\n",
                                "# Pancakes {3} ways for 2\n\nText\n"]))
+    elif kind == "multiple-readme-same-name":
+        # two readme files whose names are equal ignoring case, with DIFFERENT titles
+        dn["ch"] = [c for c in dn["ch"] if not is_readme_name(c["name"])]
+        a, b = rng.choice([("README.md", "readme.md"), ("Index.Md", "INDEX.MD"), ("ReadMe.md", "README.MD"), ("index.md", "Index.md")])
+        dn["ch"].insert(rng.randrange(len(dn["ch"]) + 1), F(a, text="# Alpha title\n\nfirst\n"))
+        dn["ch"].insert(rng.randrange(len(dn["ch"]) + 1), F(b, text="# Zulu title\n\nsecond\n"))
+    elif kind == "empty-recipe-block":
+        # an empty / blank ```recipe block in the same recipe as a non-empty block
+        add_recipe(rng.choice(["# T for 2\n\n    2 eggs\n\n```recipe\n```\n", "# T for 2\n\n    2 eggs\n\n```recipe\n\n   \n```\n\nMore {3}\n",
+                               "# T\n\n```recipe\n```\n\nx\n\n```recipe\n1 egg\n```\n"]))
     elif kind == "title-with-scaled-value":
         # a first heading with a {..} value that is NOT at its start: no title can be taken from it (rejected the same
         # way by every process)
